@@ -621,6 +621,9 @@ class Body:
             return [("opaque", local)]
         out = []
         for d in ds:
+            if d[0] == "call" and not d[2]["dest"]["p"] and (callee_name(d[2]) or "").endswith("FromResidual::from_residual"):
+                out.append(("residual", local))     # the error arm of a `?`: an Err / None, never the success variant
+                continue
             if d[0] != "stmt" or d[3]["lhs"]["p"]:
                 return [("opaque", local)]
             rv = d[3]["rv"]
@@ -646,6 +649,10 @@ class Body:
             return None
         ops_ = []
         for rv in lits:
+            if isinstance(rv, tuple) and rv[0] == "residual":
+                if projs[0]["dc"] in ("Ok", "Some", "Continue"):
+                    continue
+                return None
             if isinstance(rv, tuple):
                 if rv[1] == local:
                     return None
@@ -1005,16 +1012,31 @@ def symex(body, x, depth=0):
             if src.get("k") != "const":
                 sp = src["pl"]
                 return symex(body, {"l": sp["l"], "p": list(sp["p"]) + proj}, depth + 1)
-    if len(ds) == 1 and ds[0][0] == "call" and not proj:
+        if rv["k"] == "agg" and rv.get("what") == "tuple" and isinstance(proj[0], dict) and "f" in proj[0] and proj[0]["f"] < len(rv["ops"]) \
+                and len(body.defs.get(pl["l"], [])) == 1:
+            # a component of a tuple literal
+            o = rv["ops"][proj[0]["f"]]
+            if o.get("k") == "const":
+                return symex(body, o, depth + 1) if len(proj) == 1 else ("?",)
+            return symex(body, {"l": o["pl"]["l"], "p": list(o["pl"]["p"]) + proj[1:]}, depth + 1)
+    if len(ds) == 1 and ds[0][0] == "call" and (not proj or (callee_name(ds[0][2]) or "").endswith("Try::branch")):
         t = ds[0][2]
         nm = callee_name(t) or ""
+        if nm.endswith("Try::branch") and t["ops"] and t["ops"][0].get("k") in ("move", "copy") and len(proj) >= 2 \
+                and isinstance(proj[0], dict) and proj[0].get("dc") == "Continue" and isinstance(proj[1], dict) and proj[1].get("f") == 0:
+            # the Continue payload of `x?` is the Ok / Some payload of x
+            src = t["ops"][0]["pl"]
+            xt = (t["callee"].get("self_ty") or "") + (t["callee"].get("resolved") or "")
+            v = "Some" if "option::Option" in xt and "result::Result" not in xt.split("option::Option")[0] else "Ok"
+            return symex(body, {"l": src["l"], "p": list(src["p"]) + [{"dc": v, "vi": 0 if v == "Ok" else 1}, {"f": 0, "n": "0", "adt": None}] + proj[2:]}, depth + 1)
         # unwrap / expect of an Option / Result all of whose definitions are literals: the payload of the Some / Ok ones
         if re.search(r"(Option|Result)::(unwrap|expect|unwrap_unchecked)$", nm) and t["ops"] and t["ops"][0].get("k") in ("move", "copy") and not t["ops"][0]["pl"]["p"]:
             want = "Some" if "Option" in nm else "Ok"
             lit = body._variant_literal_ops(t["ops"][0]["pl"]["l"], [{"dc": want}, {"f": 0}])
             if lit is not None and len(lit[0]) == 1:
                 return symex(body, lit[0][0], depth + 1)
-        return ("call", callee_resolved(t) or "?", [symex(body, o, depth + 1) for o in t["ops"]])
+        if not proj:
+            return ("call", callee_resolved(t) or "?", [symex(body, o, depth + 1) for o in t["ops"]])
     # a value chosen between constants by the variant of some place (`x.map(|_| 1).unwrap_or(0)` expanded, a hand-written
     # `if x.is_some() { 1 } else { 0 }`): it derives from that place
     if not proj and len(ds) >= 2 and all(d[0] == "stmt" for d in ds):
